@@ -219,9 +219,13 @@ type cvar struct {
 	name  string
 	root  types.Object // the Go variable the name stands for (or a field of which)
 	field *types.Var
+	isnil bool // the flag "the pointer receiver is nil"
 }
 
 func (c *fctx) varCoqType(n ast.Node, v *cvar) string {
+	if v.isnil {
+		return "bool"
+	}
 	if v.field != nil {
 		return c.coqType(n, v.field.Type())
 	}
@@ -250,7 +254,7 @@ func (c *fctx) fieldVar(x *ast.SelectorExpr) (string, bool) {
 	if c.f.absOf(o) != nil {
 		return "", false
 	}
-	if _, isStruct := structFields(o.Type()); !isStruct {
+	if _, isStruct := structFields(o.Type()); !isStruct && o != c.f.recvStruct {
 		return "", false
 	}
 	fv, ok := c.info.Uses[x.Sel].(*types.Var)
@@ -352,7 +356,7 @@ func (c *fctx) readVar(name string) string {
 }
 
 func (c *fctx) assignVar(name string) string {
-	if name == "_" {
+	if name == "_" || c.exiting > 0 {
 		return name
 	}
 	for _, fr := range c.loops {
@@ -471,14 +475,18 @@ func (c *fctx) makeCall(x *ast.CallExpr) (pre []string, terms []string) {
 		if len(x.Args) > 2 {
 			c.failf(x, "make with %d arguments", len(x.Args))
 		}
+		var pre []string
 		if len(x.Args) == 2 {
+			// the size hint of a map never panics at run time (negative: treated as 0); a constant
+			// must be non-negative (compile-time rule); the expression is evaluated for its panics
 			tv := c.info.Types[x.Args[1]]
-			if tv.Value == nil || constant.Sign(tv.Value) < 0 {
-				c.failf(x, "make(map, n) with a size hint that is not a non-negative constant")
+			if tv.Value != nil && constant.Sign(tv.Value) < 0 {
+				c.failf(x, "make(map, n) with a negative constant size hint")
 			}
+			pre, _ = c.expr(x.Args[1])
 		}
 		ct := c.coqType(x, t)
-		return nil, []string{"(Some [] : " + strings.Trim(ct, "()") + ")"}
+		return pre, []string{"(Some [] : " + strings.Trim(ct, "()") + ")"}
 	}
 	if isByteSlice(t) && len(x.Args) == 2 {
 		p, n := c.expr(x.Args[1])
@@ -509,15 +517,43 @@ func shortFull(full string) string {
 // the ecode key of the error a constructor call builds: <pkg>.<func>#<constructor>, followed by
 // #k (k-th call of that constructor in the function, in source order) when there are several
 func (c *fctx) errCtorKey(x *ast.CallExpr, full string) string {
-	key := fmt.Sprintf("%s.%s#%s", c.f.spec.pkg, c.f.spec.name, shortFull(full))
+	key := fmt.Sprintf("%s#%s", c.f.keyBase(), shortFull(full))
 	if c.f.nErrCtor[full] > 1 {
 		key += fmt.Sprintf("#%d", c.f.errCtorIx[x])
 	}
 	return key
 }
 
+// <pkg>.<func>, or <pkg>.<recv>.<func> when several whitelisted methods of the package share the name
+func (f *fnInfo) keyBase() string {
+	if f.spec.recv != "" && ambiguousName[f.spec.pkg+"."+f.spec.name] {
+		return f.spec.pkg + "." + f.spec.recv + "." + f.spec.name
+	}
+	return f.spec.pkg + "." + f.spec.name
+}
+
+var ambiguousName = map[string]bool{}
+
 // an argument of an error constructor: free of effects, except that err.Error() panics on nil
 func (c *fctx) pureArg(a ast.Expr) []string {
+	switch y := ast.Unparen(a).(type) {
+	case *ast.Ident:
+		// reading a variable has no effect (the text of the message is not modelled)
+		if _, isVar := c.info.Uses[y].(*types.Var); isVar {
+			return nil
+		}
+	case *ast.IndexExpr:
+		// m[k] for a package-level map: never panics
+		if id, ok := ast.Unparen(y.X).(*ast.Ident); ok {
+			if v, ok := c.info.Uses[id].(*types.Var); ok {
+				if _, isG := c.pkgLevelVar(v); isG {
+					if _, _, isMap := mapKV(v.Type()); isMap {
+						return c.pureArg(y.Index)
+					}
+				}
+			}
+		}
+	}
 	if call, ok := ast.Unparen(a).(*ast.CallExpr); ok {
 		if sel, ok := ast.Unparen(call.Fun).(*ast.SelectorExpr); ok && len(call.Args) == 0 && sel.Sel.Name == "Error" {
 			if id, ok := ast.Unparen(sel.X).(*ast.Ident); ok && isErrorIface(c.info.TypeOf(id)) {
@@ -561,7 +597,7 @@ func (c *fctx) recHead() string {
 		}
 		return "rec_"
 	}
-	return "(" + strings.Join(append(append([]string{c.f.coqName}, c.absArgs(c.f)...), "rfuel'"), " ") + ")"
+	return "(" + strings.Join(append(append(append([]string{c.f.coqName}, c.absArgs(c.f)...), c.extArgs(c.f)...), "rfuel'"), " ") + ")"
 }
 
 func (c *fctx) callTranslated(x *ast.CallExpr, callee *fnInfo) (pre []string, terms []string) {
@@ -582,6 +618,9 @@ func (c *fctx) callTranslated(x *ast.CallExpr, callee *fnInfo) (pre []string, te
 		if _, isStruct := structFields(r.Type()); isStruct {
 			c.failf(x, "call of %s, which returns a struct", callee.obj.FullName())
 		}
+	}
+	if callee.recvStruct != nil {
+		c.failf(x, "call of %s, a method of a pointer to a struct with fields", callee.obj.FullName())
 	}
 	var head []string
 	var args []string
@@ -658,6 +697,7 @@ func (c *fctx) callTranslated(x *ast.CallExpr, callee *fnInfo) (pre []string, te
 	if self {
 		name = c.recHead()
 	} else {
+		head = append(head, c.extArgs(callee)...)
 		if callee.needsRFuel {
 			head = append(head, "rfuel")
 		}
@@ -931,6 +971,7 @@ func (c *fctx) forStmt(depth int, s *ast.ForStmt, rest func(int) string) string 
 // NAME <abstract objects> [rec_] [rfuel] fuel <globals> <free> <lf> <carried>
 func (c *fctx) loopCall(fr *loopFrame, lf string) string {
 	parts := append([]string{fr.name}, c.absArgs(c.f)...)
+	parts = append(parts, c.extArgs(c.f)...)
 	if fr.usesRec {
 		parts = append(parts, "@@REC@@")
 	}
@@ -1000,7 +1041,7 @@ func (c *fctx) translateLoop(s *ast.ForStmt) *loopFrame {
 	c.sortVars(fr.free)
 
 	// header
-	binders := c.absBinders(c.f)
+	binders := append(c.absBinders(c.f), c.extBinders(c.f)...)
 	if fr.usesRec {
 		binders = append(binders, "(rec_ : "+c.recType()+")")
 	}
@@ -1063,6 +1104,9 @@ func (c *fctx) recType() string {
 func (f *fnInfo) resTypeFull() string { return "res (" + f.resType + ")" }
 
 func (c *fctx) branchStmt(depth int, s *ast.BranchStmt) string {
+	if s.Tok == token.GOTO && s.Label != nil {
+		return c.gotoStmt(depth, s)
+	}
 	if s.Label != nil {
 		c.failf(s, "%s with a label", s.Tok)
 	}
@@ -1107,6 +1151,18 @@ func (t *tr) analyseExt(f *fnInfo, seen map[*fnInfo]bool) {
 			if all {
 				f.recv = recv
 				f.abs = append(f.abs, &absRoot{v: recv})
+			} else if _, isPtr := ptrElem(recv.Type()); isPtr {
+				ok := true
+				for _, fv := range fs {
+					_, _, isMap := mapKV(fv.Type())
+					_, _, isInt := intTypeInfo(fv.Type())
+					if !isMap && !isInt && !isBool(fv.Type()) && !isBytesLike(fv.Type()) && !isFloat64(fv.Type()) {
+						ok = false
+					}
+				}
+				if ok {
+					f.recvStruct, f.recvFields = recv, fs
+				}
 			}
 		}
 	}
@@ -1176,7 +1232,7 @@ func (t *tr) analyseExt(f *fnInfo, seen map[*fnInfo]bool) {
 					}
 				}
 			case *types.Func:
-				if errCtorLib[o.FullName()] {
+				if errCtorLib[o.FullName()] || o.FullName() == libPrepend {
 					f.nErrCtor[o.FullName()]++
 					f.errCtorIx[x] = f.nErrCtor[o.FullName()]
 				}
@@ -1191,6 +1247,9 @@ func (t *tr) analyseExt(f *fnInfo, seen map[*fnInfo]bool) {
 							}
 						}
 					}
+				}
+				if _, isExt := externalFns[o.Origin().FullName()]; isExt && t.byObj[o.Origin()] == nil {
+					f.addExtern(o.Origin())
 				}
 				// a method of an abstract object that is not itself translated
 				if t.byObj[o.Origin()] == nil {
@@ -1322,4 +1381,142 @@ func (t *tr) checkPointerCallSites(f *fnInfo) string {
 		}
 	}
 	return bad
+}
+
+// ---------- a pointer receiver *T for a struct T of translatable fields ----------
+
+func isEmptyStruct(t types.Type) bool {
+	if _, isTP := t.(*types.TypeParam); isTP {
+		return false
+	}
+	st, ok := t.Underlying().(*types.Struct)
+	return ok && st.NumFields() == 0
+}
+
+func (c *fctx) isnilName() string {
+	n := c.nameOf(c.f.recvStruct) + "_isnil"
+	if _, ok := c.vars[n]; !ok {
+		c.used[n] = true
+		c.vars[n] = &cvar{name: n, root: c.f.recvStruct, isnil: true}
+	}
+	return n
+}
+
+func (c *fctx) isRecv(e ast.Expr) bool {
+	id, ok := ast.Unparen(e).(*ast.Ident)
+	if !ok || c.f.recvStruct == nil {
+		return false
+	}
+	return c.info.Uses[id] == c.f.recvStruct
+}
+
+func (c *fctx) isRecvField(e ast.Expr) bool {
+	sel, ok := ast.Unparen(e).(*ast.SelectorExpr)
+	return ok && c.isRecv(sel.X)
+}
+
+// p.f dereferences p: panics when the receiver is nil
+func (c *fctx) recvCheck(x ast.Expr) []string {
+	if !c.isRecv(x) {
+		return nil
+	}
+	return []string{fmt.Sprintf("do _ <- gptr_check %s;", c.readVar(c.isnilName()))}
+}
+
+// the binding of an assigned variable; a field of the receiver is assigned through the pointer
+func (c *fctx) bindLine(lhs ast.Expr, name, term string) string {
+	if c.isRecvField(lhs) {
+		return fmt.Sprintf("do %s <- gptr_set %s %s;", name, c.readVar(c.isnilName()), term)
+	}
+	return fmt.Sprintf("let %s := %s in", name, term)
+}
+
+// ---------- external functions with a given model ----------
+
+// Calls of these functions become calls of a function parameter of the generated definition.
+// Sound when the Go function is a deterministic function of its arguments that neither keeps
+// state nor stores into them (thrift.Binary.Skip reads its slice only).
+var externalFns = map[string]string{
+	"(" + modPath + "protocol/thrift.BinaryProtocol).Skip": "x_thrift_Binary_Skip",
+	"semtest/ext.Calc": "x_ext_Calc", // the translator's differential self-test (testdata/ext)
+}
+
+func (f *fnInfo) addExtern(fn *types.Func) {
+	for _, e := range f.externs {
+		if e == fn {
+			return
+		}
+	}
+	f.externs = append(f.externs, fn)
+	sort.Slice(f.externs, func(i, j int) bool { return f.externs[i].FullName() < f.externs[j].FullName() })
+}
+
+func (c *fctx) extBinders(f *fnInfo) []string {
+	var bs []string
+	for _, e := range f.externs {
+		sig := e.Type().(*types.Signature)
+		var parts, rts []string
+		for i := 0; i < sig.Params().Len(); i++ {
+			parts = append(parts, c.coqType(c.f.decl, sig.Params().At(i).Type()))
+		}
+		for i := 0; i < sig.Results().Len(); i++ {
+			rts = append(rts, c.coqType(c.f.decl, sig.Results().At(i).Type()))
+		}
+		bs = append(bs, fmt.Sprintf("(%s : %s -> res (%s))", externalFns[e.FullName()], strings.Join(parts, " -> "), strings.Join(rts, " * ")))
+	}
+	return bs
+}
+
+func (c *fctx) extArgs(f *fnInfo) []string {
+	var as []string
+	for _, e := range f.externs {
+		as = append(as, externalFns[e.FullName()])
+	}
+	return as
+}
+
+func (c *fctx) callExternal(x *ast.CallExpr, fn *types.Func, name string) (pre []string, terms []string) {
+	sig := fn.Type().(*types.Signature)
+	if x.Ellipsis.IsValid() || sig.Variadic() {
+		c.failf(x, "variadic call")
+	}
+	var args []string
+	for i, a := range x.Args {
+		if c.isMutatedParam(a) {
+			c.failf(a, "argument of an external function that is stored into elsewhere")
+		}
+		p, t := c.exprAs(a, sig.Params().At(i).Type())
+		pre = append(pre, p...)
+		args = append(args, t)
+	}
+	var pats []string
+	for i := 0; i < sig.Results().Len(); i++ {
+		t := c.fresh()
+		pats = append(pats, t)
+		terms = append(terms, t)
+	}
+	pre = append(pre, fmt.Sprintf("do %s <- %s;", tuple(pats), strings.TrimSpace(name+" "+strings.Join(args, " "))))
+	return pre, terms
+}
+
+// goto L for a label L of the function's outermost block that comes later: the statements
+// from L to the end of the function follow (a backward goto would be a loop: refused)
+func (c *fctx) gotoStmt(depth int, s *ast.BranchStmt) string {
+	list := c.f.decl.Body.List
+	for i, st := range list {
+		ls, ok := st.(*ast.LabeledStmt)
+		if !ok || ls.Label.Name != s.Label.Name {
+			continue
+		}
+		if ls.Pos() < s.Pos() {
+			c.failf(s, "backward goto")
+		}
+		savedBrk, savedConts := c.brk, c.conts
+		c.brk, c.conts = nil, nil
+		c.exiting++
+		defer func() { c.brk, c.conts = savedBrk, savedConts; c.exiting-- }()
+		return c.block(depth, list[i:], c.endK)
+	}
+	c.failf(s, "goto to a label that is not a statement of the function's outermost block")
+	return ""
 }
